@@ -107,7 +107,56 @@ fn ask(sut: &Sut, c: &Case, w: &Where, payload: &[u8]) -> Result<Option<(Vec<u8>
     }
 }
 
+/// portmapper DUMP reply body: every field kept except the port / universal address; netids
+/// reduced to their transport (tcp6 -> tcp: "netid matching the IP version" is C16's business)
+fn masked_dump(version: u32, body: &[u8]) -> Result<Vec<u8>, String> {
+    let mut x = Xdr::new(body);
+    let mut v = Vec::new();
+    loop {
+        let more = x.u32()?;
+        if more == 0 {
+            break;
+        }
+        if more != 1 {
+            return Err(format!("value-follows word {}", more));
+        }
+        v.extend_from_slice(b"[entry ");
+        v.extend_from_slice(&x.u32()?.to_be_bytes());
+        v.extend_from_slice(&x.u32()?.to_be_bytes());
+        if version == 2 {
+            v.extend_from_slice(&x.u32()?.to_be_bytes());
+            let _port = x.u32()?;
+        } else {
+            let netid = x.opaque()?;
+            let t: &[u8] = if netid.starts_with(b"tcp") { b"tcp" } else if netid.starts_with(b"udp") { b"udp" } else { &netid };
+            v.extend_from_slice(t);
+            let _addr = x.opaque()?;
+            v.push(b'/');
+            v.extend_from_slice(&x.opaque()?);
+        }
+        v.push(b']');
+    }
+    if !x.done() {
+        return Err("bytes left over after the DUMP list".into());
+    }
+    Ok(v)
+}
+
 /// structural view of a reply with exactly the address-bearing and wall-clock fields masked
+fn masked_for(pay: &Pay, who: Responder, a: &[u8], tcp: bool) -> Result<Vec<u8>, String> {
+    if who == Responder::Rpc {
+        if let Pay::App(AppReq::Rpc(call)) = pay {
+            let body = if rpc_record_marked(a) { &a[4..] } else { a };
+            if call.program == 100000 && call.procedure == 4 && (2..=4).contains(&call.version) && body.len() >= 24 && be32(body, 20) == 0 {
+                let mut v = body[..24].to_vec();
+                v.extend_from_slice(&masked_dump(call.version, &body[24..])?);
+                return Ok(v);
+            }
+        }
+    }
+    masked(who, a, tcp)
+}
+
 fn masked(who: Responder, a: &[u8], tcp: bool) -> Result<Vec<u8>, String> {
     match who {
         Responder::Stun => {
@@ -194,7 +243,7 @@ pub fn check(c: &Case, st: &mut Stats) -> Check {
             // reply source port relative to the destination port (STUN change-port = +1 in both)
             let (oa, ob) = (pa.wrapping_sub(c.a.dport), pb.wrapping_sub(c.b.dport));
             vensure!(oa == ob, "reply source port offset from the destination port differs: {} vs {}: {}", oa, ob, show());
-            match (masked(wa, a, c.tcp), masked(wb, b, c.tcp)) {
+            match (masked_for(&c.pay, wa, a, c.tcp), masked_for(&c.pay, wb, b, c.tcp)) {
                 (Ok(ma), Ok(mb)) => vensure!(ma == mb, "application replies differ beyond the endpoint-address fields: {} vs {} ({})", hex(&a[..a.len().min(160)]), hex(&b[..b.len().min(160)]), show()),
                 // the structural decoder rejects the reply in both contexts alike (replies to
                 // mutated requests may echo malformed names): the address-bearing fields cannot be
@@ -252,7 +301,7 @@ fn sweep_ask(sut: &Sut, c: &Case, w: &Where, payload: &[u8]) -> Result<Option<(R
         None => Ok(None),
         Some((a, sp)) => {
             let who = classify_reply(&a, c.tcp);
-            let m = masked(who, &a, c.tcp).map_err(|e| Failure::new(format!("golden reply does not decode: {}", e)))?;
+            let m = masked_for(&c.pay, who, &a, c.tcp).map_err(|e| Failure::new(format!("golden reply does not decode: {}", e)))?;
             Ok(Some((who, m, sp.wrapping_sub(w.dport))))
         }
     }
@@ -293,7 +342,7 @@ impl Prop for C19 {
         "C19"
     }
     fn rule(&self) -> &'static str {
-        "metamorphic: one application payload (request of every protocol generator, byte-mutated requests, hostile STUN TLV lists, random bytes) sent with the transport held fixed (UDP datagram, or first segment of a handshaken TCP flow) in two contexts that differ in source/destination ports only (incl. 0, 53, 80, 111, 445, 3478, 65535), in IP version and addresses only, or in both. Oracle: answered in both contexts or in neither; same responder (independent classifier); reply source port at the same offset from the destination port; application replies equal after structural masking of exactly the listed exceptions — STUN MAPPED-ADDRESS value, successful portmapper bodies (port / universal address / netid), DNS A RDATA and its length, HTTP Date and SMB times. Non-trivial = answered in both contexts; distinct by hash of (payload, contexts)."
+        "metamorphic: one application payload (request of every protocol generator, byte-mutated requests, hostile STUN TLV lists, random bytes) sent with the transport held fixed (UDP datagram, or first segment of a handshaken TCP flow) in two contexts that differ in source/destination ports only (incl. 0, 53, 80, 111, 445, 3478, 65535), in IP version and addresses only, or in both. Oracle: answered in both contexts or in neither; same responder (independent classifier); reply source port at the same offset from the destination port; application replies equal after structural masking of exactly the listed exceptions — STUN MAPPED-ADDRESS value, successful portmapper bodies (GETPORT / GETADDR: the port / universal address; DUMP: parsed entry by entry, only port / address masked and netids reduced to their transport), DNS A RDATA and its length, HTTP Date and SMB times. Non-trivial = answered in both contexts; distinct by hash of (payload, contexts)."
     }
     fn run(&self, ctx: &mut RunCtx) {
         let n = ctx.share(ctx.tier.n(600_000, 8_000_000));
@@ -327,6 +376,30 @@ impl Prop for C19 {
                     }
                 }
             }
+        }
+        // exhaustive grid: every portmapper-range call shape, IPv4 against IPv6 (same ports)
+        let mut gi = 0u64;
+        for program in [100000u32, 100003, 99999] {
+            for version in 0u32..=6 {
+                for procedure in 0u32..=12 {
+                    for tcp in [false, true] {
+                        gi += 1;
+                        if !ctx.owns(gi) {
+                            continue;
+                        }
+                        let call = RpcCall { xid: 0x51fe1d13, rpcvers_low: 2, program, version, procedure, cred_flavor: 0, cred: Hex(vec![]), verf_flavor: 0, verf: Hex(vec![]), args: Hex(vec![0, 1, 0x86, 0xa0, 0, 0, 0, 2, 0, 0, 0, 6, 0, 0, 0, 0]) };
+                        let w4 = Where { v4: true, c4: [198, 51, 100, 7], s4: [203, 0, 113, 9], c6: [0x20, 1, 0xd, 0xb8, 0, 1, 0, 0, 0, 0, 0, 0, 0, 0, 0, 7], s6: [0x20, 1, 0xd, 0xb8, 0, 2, 0, 0, 0, 0, 0, 0, 0, 0, 0, 9], sport: 40000, dport: 111 };
+                        let mut w6 = w4.clone();
+                        w6.v4 = false;
+                        let c = Case { mac: [0x02, 0x42, 0xac, 0x11, 0x00, 0x02], cmac: [2, 0, 0, 0, 0, 9], key: [11, 22], tcp, pay: Pay::App(AppReq::Rpc(call)), a: w4, b: w6 };
+                        let r = check(&c, ctx.st);
+                        ctx.run_one("where", &c, r);
+                    }
+                }
+            }
+        }
+        if ctx.worker == 0 {
+            ctx.st.exhaustive_parts.push("ONC-RPC call shapes: programs {100000, 100003, 99999} x versions 0..6 x procedures 0..12 x {UDP, TCP}, each over IPv4 against IPv6".into());
         }
         if ctx.worker == 0 {
             ctx.st.exhaustive_parts.push("ports: all 65536 destination ports and all 65536 source ports for 12 golden requests (one per protocol / request kind) x {UDP, TCP} x {IPv4, IPv6}".into());
